@@ -11,8 +11,8 @@ well-conditioned kernel of the cell (never as a second difference of eta):
     rectangle t' in [a,b], t'' in [0,D]:  K = E(a,b) conj(E(0,D)),  E(a,b) = (b-a) e^{-iw(a+b)/2} sinc(w(b-a)/2)
     triangle  0 < t'' < t' < D         :  K = D^2/2 sinc^2(wD/2) - i D^2 g(wD),  g(x) = (x - sin x)/x^2
 
-The frequency integral uses the substitution w = u^2 (removes the w^(zeta-1) end-point behaviour for all
-zeta that are multiples of 1/2; others are still integrable and only converge more slowly) and composite
+The frequency integral uses the substitution w = u^m with m*zeta integer (removes the w^(zeta-1) end-point
+behaviour: the integrand becomes analytic in u) and composite
 Gauss-Legendre panels that are doubled until two successive results agree (self-check, reported).
 """
 import math
@@ -184,10 +184,12 @@ def _h2(x):
 class Spectrum:
     """int_0^W dw J(w) [coth Re K + i Im K]  (real time)   /   int_0^W dw J(w) K(w)  (imaginary time)."""
 
-    def __init__(self, jf, ctype, wc, temp, order=24, p0=48, rtol=2e-13, pmax=6144):
+    def __init__(self, jf, ctype, wc, temp, power=2, order=24, p0=48, rtol=2e-13, pmax=6144):
+        """power m: substitution w = u^m; choose m with m*zeta integer so that the integrand is analytic in u."""
         self.jf, self.ctype, self.wc, self.temp = jf, ctype, wc, temp
         self.cut = cutoff(ctype, wc)
-        self.umax = math.sqrt(w_upper(ctype, wc))
+        self.m = int(power)
+        self.umax = w_upper(ctype, wc) ** (1.0 / self.m)
         self.order, self.p0, self.rtol, self.pmax = order, p0, rtol, pmax
         self._grid = {}
         self.worst_selfcheck = 0.0
@@ -200,8 +202,8 @@ class Spectrum:
             half = 0.5 * (edges[1:] - edges[:-1])
             u = (mid[:, None] + half[:, None] * x[None, :]).ravel()
             wu = (half[:, None] * wt[None, :]).ravel()
-            w = u * u
-            jw = self.jf(w) * self.cut(w) * 2.0 * u * wu      # dw = 2u du
+            w = u ** self.m
+            jw = self.jf(w) * self.cut(w) * self.m * u ** (self.m - 1) * wu      # dw = m u^(m-1) du
             self._grid[p] = (w, jw, jw * coth_half(w, self.temp))
         return self._grid[p]
 
@@ -213,9 +215,9 @@ class Spectrum:
         return complex(np.sum(jwc * k.real), np.sum(jw * k.imag))
 
     def integrate(self, kern, imaginary_time=False, tmax=1.0):
-        # enough panels to resolve cos(u^2 t): local frequency 2 u t
+        # enough panels to resolve cos(u^m t): local frequency m u^(m-1) t
         p = self.p0
-        need = int(self.umax * 2 * self.umax * max(tmax, 1e-9) / 6.0) + 1
+        need = int(self.m * self.umax ** self.m * max(tmax, 1e-9) / 6.0) + 1
         while p < need:
             p *= 2
         prev = self._once(kern, p, imaginary_time)
@@ -276,3 +278,11 @@ def weight_rect(a, b, delta):
 
 def weight_tri(delta, t1=0.0):
     return lambda s: np.where((s >= t1) & (s <= t1 + delta), delta - (s - t1), 0.0)
+
+
+def power_for(zeta):
+    """smallest m in 2..8 with m*zeta integer (m >= 2 also regularises custom j's that are smooth in w)."""
+    for m in range(2, 9):
+        if abs(m * zeta - round(m * zeta)) < 1e-12:
+            return m
+    raise ValueError(f"zeta={zeta}: no substitution power <= 8 makes the integrand analytic")
